@@ -16,19 +16,19 @@ var verifHarnesses = map[string]func(){
 var verifExpectExit bool
 
 type verifCfg struct {
-	auto, verbose bool
+	auto, verbose, zip, unreachable, noLexer, debugLexer, debugParser bool
 }
 
 func (c verifCfg) Help() bool              { return false }
 func (c verifCfg) Verbose() bool           { return c.verbose }
-func (c verifCfg) Zip() bool               { return false }
-func (c verifCfg) AllowUnreachable() bool  { return false }
+func (c verifCfg) Zip() bool               { return c.zip }
+func (c verifCfg) AllowUnreachable() bool  { return c.unreachable }
 func (c verifCfg) AutoResolveLRConf() bool { return c.auto }
 func (c verifCfg) SourceFile() string      { return "g.bnf" }
 func (c verifCfg) OutDir() string          { return "." }
-func (c verifCfg) NoLexer() bool           { return false }
-func (c verifCfg) DebugLexer() bool        { return false }
-func (c verifCfg) DebugParser() bool       { return false }
+func (c verifCfg) NoLexer() bool           { return c.noLexer }
+func (c verifCfg) DebugLexer() bool        { return c.debugLexer }
+func (c verifCfg) DebugParser() bool       { return c.debugParser }
 func (c verifCfg) ErrorsDir() string       { return "" }
 func (c verifCfg) ParserDir() string       { return "" }
 func (c verifCfg) ScannerDir() string      { return "" }
